@@ -90,6 +90,26 @@ def pyBool (v : Val) : Val := .bool v.truthy
 def run {α} (m : OM α) (s : PyStoreSt) : Except Err α × PyStoreSt := (ExceptT.run m).run s
 
 end OM
+/-! `Store` (rxsci/state/store.py): the list `self.states` of the `MemoryStore` objects of one partition, one per state id of the
+topology; `StoreManager` without partitioning holds exactly one `Store` -/
+abbrev SM := ExceptT Err (StateM (List PyStoreSt))
+
+namespace SM
+/-- `self.states[state].<method>(…)`: the method runs on the object at index `state` (IndexError past the end), every other
+object is left alone -/
+def onState {α} (state : Nat) (m : OM α) : SM α := do
+  let tbl ← get
+  match tbl[state]? with
+  | some st =>
+    let r := OM.run m st
+    set (tbl.set state r.2)
+    match r.1 with
+    | .ok a => pure a
+    | .error e => throw e
+  | none => throw "IndexError"
+def run {α} (m : SM α) (tbl : List PyStoreSt) : Except Err α × List PyStoreSt := (ExceptT.run m).run tbl
+end SM
+
 /-! dict side of a mapper state (`data_type='mapper'`): `self.values[i]` is a dict map_key → group index -/
 structure MapSt where
   /-- per slot: the dict as an insertion-ordered association list; `none` = the slot does not hold a dict (growth filler 0, or
